@@ -769,6 +769,21 @@ func genC06(g *Gen, tier string, emit func(op string, args ...string)) {
 			return "D0:" + itoa(peer) + ":" + hx(w)
 		}
 		sec := "0:73,1:7365637265743a31,2:-,3:error"
+		// an authentic but unparsable datagram must not leave its (source, identifier) registered:
+		// a later valid request with the same source and identifier is served
+		{
+			bad := accessRequest(33, "x")
+			bad[len(bad)-2] = 9
+			good := accessRequest(33, "y")
+			for _, peer := range []string{"0", "1"} {
+				emit("scenario", "0", sec, strings.Join([]string{"S0", "s0", "D0:" + peer + ":" + hx(bad), "d0", "D0:" + peer + ":" + hx(good), "d1", "F1:2", "D0:" + peer + ":" + hx(good), "d2", "F2:2", "Z"}, ","))
+				emit("scenario", "1", sec, strings.Join([]string{"S0", "s0", "D0:" + peer + ":" + hx(bad[:19]), "d0", "D0:" + peer + ":" + hx(good), "d1", "F1:0", "Z"}, ","))
+			}
+			// the duplicate table is per Serve call: the same (source, identifier) in flight on another
+			// socket of the same server is a different request
+			emit("scenario", "0", sec, strings.Join([]string{"S0", "s0", "S1", "s1", "D0:0:" + hx(good), "d0", "D1:0:" + hx(good), "d1", "D0:0:" + hx(good), "d2", "F1:2", "F0:2", "Z"}, ","))
+			emit("scenario", "0", sec, strings.Join([]string{"S0", "s0", "S1", "s1", "D1:1:" + hx(good), "d0", "D0:1:" + hx(good), "d1", "F0:3", "D1:1:" + hx(good), "d2", "F2:2", "F1:2", "Z"}, ","))
+		}
 		for _, peers := range [][]int{{0, 1}, {1, 0}, {0, 1, 0}, {0, 0}} {
 			var pre []string
 			for t, pr := range peers {
